@@ -222,8 +222,14 @@ func (c *ClientConn) Do(req *http.Request, handler func(res *http.Response, conn
 	}
 
 	if c.conn != nil {
-		if confTimeout > 0 && len(c.handlers) == 1 {
-			_ = c.conn.SetReadDeadline(deadline)
+		if len(c.handlers) == 1 {
+			// the connection was idle: its idle deadline must not run on
+			// while a request is in flight.
+			if confTimeout > 0 {
+				_ = c.conn.SetReadDeadline(deadline)
+			} else {
+				_ = c.conn.SetReadDeadline(time.Time{})
+			}
 		}
 		sendRequest()
 	} else {
